@@ -321,7 +321,7 @@ func c01(c *core.Ctx) {
 					}
 					key := typeKey(nt) + "." + f.Name() + ":success-needs-one-decode"
 					bad := ""
-					for _, r := range core.Returns(f) {
+					for _, r := range core.ErrReturns(f) {
 						ev := r.Results[len(r.Results)-1]
 						cl := core.ClassifyErr(ev, r)
 						if cl == core.ErrNonNil {
